@@ -58,3 +58,80 @@ fn run(k_max: u8, check_post: bool) {
 fn vk_read_total_small_k() {
     run(5, false)
 }
+
+#[kani::proof]
+#[kani::unwind(4)]
+#[kani::stub(std::hash::RandomState::new, crate::stubs::random_state_new_stub)]
+fn probe_cs_drop() {
+    let cs = ConstraintSystem::<ToyF>::default();
+    drop(cs);
+}
+#[kani::proof]
+#[kani::unwind(4)]
+#[kani::stub(std::hash::RandomState::new, crate::stubs::random_state_new_stub)]
+fn probe_cs_make_drop() {
+    let cs = make_cs();
+    drop(cs);
+}
+#[kani::proof]
+#[kani::unwind(4)]
+#[kani::stub(std::hash::RandomState::new, crate::stubs::random_state_new_stub)]
+fn probe_cs_convert() {
+    let cs = make_cs();
+    let (cs, _) = cs.directly_convert_selectors_to_fixed(vec![]);
+    core::mem::forget(cs);
+}
+fn take_cs(cs: ConstraintSystem<ToyF>, rd: &mut &[u8]) -> std::io::Result<ConstraintSystem<ToyF>> {
+    use std::io::Read;
+    let mut b = [0u8; 1];
+    rd.read_exact(&mut b)?;
+    if b[0] != 3 {
+        return Err(std::io::Error::from(std::io::ErrorKind::InvalidData));
+    }
+    let d = midnight_proofs::poly::EvaluationDomain::<ToyF>::new(cs.degree() as u32, b[0] as u32);
+    let mut n = [0u8; 4];
+    rd.read_exact(&mut n)?;
+    let n = u32::from_le_bytes(n);
+    use midnight_proofs::utils::helpers::ProcessedSerdeObject;
+    let v: Vec<crate::kcs::KCom> =
+        (0..n).map(|_| crate::kcs::KCom::read(rd, SerdeFormat::RawBytes)).collect::<Result<_, _>>()?;
+    let (cs, _) = cs.directly_convert_selectors_to_fixed(vec![]);
+    core::mem::forget(v);
+    core::mem::forget(d);
+    Ok(cs)
+}
+#[kani::proof]
+#[kani::unwind(4)]
+#[kani::stub(std::hash::RandomState::new, crate::stubs::random_state_new_stub)]
+#[kani::stub(midnight_proofs::poly::EvaluationDomain::new, crate::stubs::domain_new_stub)]
+fn probe_cs_take() {
+    let buf: [u8; 8] = kani::any();
+    let len: usize = kani::any();
+    kani::assume(len <= 8);
+    let mut rd: &[u8] = &buf[..len];
+    let cs = make_cs();
+    match take_cs(cs, &mut rd) {
+        Ok(cs) => core::mem::forget(cs),
+        Err(e) => core::mem::forget(e),
+    }
+}
+#[kani::proof]
+#[kani::unwind(7)]
+#[kani::stub(std::fmt::format, crate::stubs::format_stub)]
+#[kani::stub(std::hash::RandomState::new, crate::stubs::random_state_new_stub)]
+#[kani::stub(midnight_proofs::poly::EvaluationDomain::new, crate::stubs::domain_new_stub)]
+#[kani::stub(core::arch::x86_64::__cpuid_count, crate::stubs::cpuid_stub)]
+#[kani::stub(blake2b_simd::State::update, crate::stubs::blake2b_update_stub)]
+#[kani::stub(blake2b_simd::State::finalize, crate::stubs::blake2b_finalize_stub)]
+fn probe_vk_read_len0() {
+    let buf: [u8; 11] = kani::any();
+    kani::assume(buf[1] <= 5);
+    kani::assume(u32::from_le_bytes([buf[2], buf[3], buf[4], buf[5]]) <= 4);
+    let cs = make_cs();
+    let mut rd: &[u8] = &buf[..11];
+    let r = VerifyingKey::<ToyF, KCS>::read_from_cs(&mut rd, SerdeFormat::RawBytes, cs);
+    match r {
+        Ok(vk) => core::mem::forget(vk),
+        Err(e) => core::mem::forget(e),
+    }
+}
